@@ -9,7 +9,7 @@ chosen bits (distinguishes "first 8 hex digits" from "last 8" and from other has
 from __future__ import annotations
 
 from pyabv.gen import golden
-from pyabv.gen.inputs import SPLITTER_VALUES
+from pyabv.gen.inputs import SPLITTER_VALUES, exotic_splitter_values
 from pyabv.gen.programs import Profile, ProgGen
 from pyabv.impl import impl
 from pyabv.props.common import choose_inputs, judge, self_check
@@ -130,6 +130,10 @@ def run(ctx):
                         env = {n: "" for n in names}  # with no / empty salt the key is the empty string: still position md5("")
                     elif j == 1:
                         env = {n: rnd.choice([0, False, None, 0.0, "0"]) for n in names}
+                    elif j in (2, 3):
+                        # any object is hashed through its str(): subclasses of str / int with their own __str__, Decimal,
+                        # Fraction, bytes, containers
+                        env = {n: rnd.choice(exotic_splitter_values()) for n in names}
                     check(ctx, im, st[1], text, c[1], env, "headers")
                     if j == 0:
                         check(ctx, im, st[1], text, c[1], env, "headers")  # and again: must not be a random draw
